@@ -270,23 +270,39 @@ def coreVecAllWrites [Inhabited α] (bidx : List Pattern) (transp : List (List N
 def readEntries [Zero α] (ws : List ((List Nat × Nat) × α)) (μ : List Nat) (s : Nat) : α :=
   ws.foldl (fun acc w => if w.1 = (μ, s) then w.2 else acc) 0
 
-/-- `X.asmatrix()` of the packed ML matrix `S_base.join(dense(nc))` with the data from the generic
-core: triples in data order. -/
-def packedTriples [Zero α] (bs : List (Nat × Nat)) (bidx : List Pattern) (nc1 nc0 : Nat)
-    (ws : List ((List Nat × Nat) × α)) : Triples α :=
+/-- `X.asmatrix()` of the packed ML matrix `S_base.join(dense(nc))`, data read through `rd μ slot`
+(= `entries[μ, slot]`): triples in data order. -/
+def packedTriplesWith (bs : List (Nat × Nat)) (bidx : List Pattern) (nc1 nc0 : Nat)
+    (rd : List Nat → Nat → α) : Triples α :=
   let S : MLStructure := { bs := bs ++ [(nc1, nc0)], bidx := bidx ++ [denseIJ nc1 nc0] }
   (loopNest (S.bidx.map List.length)).map (fun ν =>
     let p := S.entryAt ν
-    (p.1, p.2, readEntries ws (ν.take bidx.length) (ν.getD bidx.length 0)))
+    (p.1, p.2, rd (ν.take bidx.length) (ν.getD bidx.length 0)))
 
 /-- `X.reorder((dim,) + tuple(range(dim)))` then `asmatrix()`: the component level moved to the
 front, data transposed accordingly (`newdata[c, μ] = data[μ, c]`). -/
-def blockedTriples [Zero α] (bs : List (Nat × Nat)) (bidx : List Pattern) (nc1 nc0 : Nat)
-    (ws : List ((List Nat × Nat) × α)) : Triples α :=
+def blockedTriplesWith (bs : List (Nat × Nat)) (bidx : List Pattern) (nc1 nc0 : Nat)
+    (rd : List Nat → Nat → α) : Triples α :=
   let S : MLStructure := { bs := (nc1, nc0) :: bs, bidx := denseIJ nc1 nc0 :: bidx }
   (loopNest (S.bidx.map List.length)).map (fun ν =>
     let p := S.entryAt ν
-    (p.1, p.2, readEntries ws (ν.drop 1) (ν.getD 0 0)))
+    (p.1, p.2, rd (ν.drop 1) (ν.getD 0 0)))
+
+/-- with the data of the generic core (`readEntries`: last write wins).  The driver passes a
+hash-map reader built from the same write list (same last-write-wins semantics) for speed. -/
+def packedTriples [Zero α] (bs : List (Nat × Nat)) (bidx : List Pattern) (nc1 nc0 : Nat)
+    (ws : List ((List Nat × Nat) × α)) : Triples α :=
+  packedTriplesWith bs bidx nc1 nc0 (readEntries ws)
+
+def blockedTriples [Zero α] (bs : List (Nat × Nat)) (bidx : List Pattern) (nc1 nc0 : Nat)
+    (ws : List ((List Nat × Nat) × α)) : Triples α :=
+  blockedTriplesWith bs bidx nc1 nc0 (readEntries ws)
+
+/-- the data positions `μ` (in loop order) which the symmetric vector core skips (block above the diagonal) -/
+def coreVecSkipped (bidx : List Pattern) : List Bool :=
+  (loopNest (bidx.map List.length)).map (fun μ =>
+    let ij := List.zipWith (fun (pat : Pattern) (m : Nat) => pat.getD m (0, 0)) bidx μ
+    vecSkip (ij.map (·.1)) (ij.map (·.2)))
 
 /-- the explicit permutation between the layouts: packed index `I*nc + c` ↦ blocked index `c*N + I` -/
 def packedToBlocked (N nc : Nat) (r : Nat) : Nat := (r % nc) * N + r / nc
